@@ -302,7 +302,7 @@ def run_rng(ctx, i, rng):
         kb = np.asarray(jax.random.key_data(key)).tobytes()
       except Exception:  # noqa: BLE001 - traced key inside jit
         kb = None
-      log.append((tuple(self_scope.path), name, kb))
+      log.append((tuple(self_scope.path), name, kb, int(self_scope.rng_counters.get(name, 0))))
       return key
     scope.Scope.make_rng = make_rng
     try:
@@ -315,6 +315,21 @@ def run_rng(ctx, i, rng):
     parent_l = [e for e in ll if e[0] == ()]
     if tail:
       ctx.check(parent_p == parent_l and parent_p, 'rng:parent_draw_after_lifted_region_changed', lambda: dict(case=desc, plain=repr(parent_p)[:200], lifted=repr(parent_l)[:200]))
+    if kind == 'jit_method':
+      # position addressing survives the jitted method: a parent draw made AFTER the region is still
+      # fold_in(stream seed key, sha1(count)[:4]) of the parent's own stream (the forked rngs must have been restored)
+      import hashlib
+      m2 = P(kind, inner, d, tail_noise=True)
+      scope.Scope.make_rng = make_rng
+      try:
+        log.clear(); m2.apply(vp, x, rngs=rngs); l2 = list(log)
+      finally:
+        scope.Scope.make_rng = orig
+      last = [e for e in l2 if e[0] == () and e[1] == 'noise' and e[2] is not None][-1]
+      cnt = last[3]
+      h = int.from_bytes(hashlib.sha1(cnt.to_bytes((cnt.bit_length() + 7) // 8, 'big')).digest()[:4], 'big')
+      want = np.asarray(jax.random.key_data(jax.random.fold_in(rngs['noise'], np.uint32(h)))).tobytes()
+      ctx.check(last[2] == want, 'rng:parent_stream_not_restored_after_jitted_method', lambda: dict(case=desc, count=cnt))
     if kind == 'remat':
       ctx.check(close(yp, yl), 'rng:draws_differ_from_plain', lambda: dict(case=desc))
     else:
